@@ -4,6 +4,7 @@ import (
 	"context"
 	"errors"
 	"fmt"
+	"strings"
 	"time"
 
 	goat "github.com/avos-io/goat"
@@ -372,3 +373,83 @@ func c19ChanClosed(r *Run) {
 		r.Violate("chan.closed", "ops", "what was written before the peer closed its end did not arrive", nil, fmt.Sprint(ids), "[1 2]")
 	}
 }
+
+// c19ReusedEnvelope (scenarios ws, http): a sender keeps ONE envelope object and refills it between
+// writes (a new body of another length, another header field): every write carries what the object
+// holds at that moment.
+func c19ReusedEnvelope(r *Run, kind string) {
+	scen := kind + ".reused"
+	r.Progress(scen, nil)
+	var w, rd goat.RpcReadWriter
+	switch kind {
+	case "ws":
+		p, err := c19NewWsPair()
+		if err != nil {
+			r.Count(scen + ".no_listener")
+			return
+		}
+		defer p.Close()
+		w, rd = goat.NewGoatOverWebsocket(p.cli), goat.NewGoatOverWebsocket(p.srv)
+	case "http":
+		recv := c19NewNode(c19IdentityMapper)
+		defer recv.Close()
+		sender := c19NewNode(c19IdentityMapper)
+		defer sender.Close()
+		w = sender.goh.NewConnection(recv.addr)
+		ch := make(chan goat.RpcReadWriter, 1)
+		go func() {
+			select {
+			case c := <-recv.conns:
+				ch <- c.rw
+			case <-time.After(2 * hangTimeout):
+			}
+		}()
+		// the first write announces the connection at the receiver
+		defer func() {}()
+		rd = &lazyRW{ch: ch}
+	}
+	e := &Rpc{Id: 1, Header: &goatorepo.RequestHeader{Method: "/s/m", Source: "writer", Destination: "d"}, Body: &goatorepo.Body{Data: []byte("0123456789")}}
+	for i, n := range []int{10, 300, 0, 70000, 5} {
+		e.Id = uint64(i + 1)
+		e.Body.Data = make([]byte, n)
+		for j := range e.Body.Data {
+			e.Body.Data[j] = byte(i + j)
+		}
+		e.Header.Destination = strings.Repeat("d", 1+i*3)
+		want := proto.Clone(e).(*Rpc)
+		werr := make(chan error, 1)
+		go func() {
+			ctx, cancel := context.WithTimeout(context.Background(), 2*hangTimeout)
+			defer cancel()
+			werr <- w.Write(ctx, e)
+		}()
+		ctx, cancel := context.WithTimeout(context.Background(), 2*hangTimeout)
+		got, err := rd.Read(ctx)
+		cancel()
+		we := <-werr
+		r.Eval(fmt.Sprintf("%s/%d", scen, n), true)
+		if we != nil || err != nil || !proto.Equal(got, want) {
+			r.Violate(scen, "ops", "an envelope object that the sender refills between writes was not carried as it stood at the time of the write", map[string]any{"write": i, "body_bytes": n}, fmt.Sprint("write error: ", we, "; read: ", c19Brief(got), " ", err), c19Brief(want))
+			return
+		}
+	}
+	r.Count(scen)
+}
+
+// lazyRW reads from a connection that is announced later.
+type lazyRW struct {
+	ch chan goat.RpcReadWriter
+	rw goat.RpcReadWriter
+}
+
+func (l *lazyRW) Read(ctx context.Context) (*Rpc, error) {
+	if l.rw == nil {
+		select {
+		case l.rw = <-l.ch:
+		case <-ctx.Done():
+			return nil, ctx.Err()
+		}
+	}
+	return l.rw.Read(ctx)
+}
+func (l *lazyRW) Write(ctx context.Context, e *Rpc) error { return errors.New("read side only") }
